@@ -15,3 +15,4 @@ META = {
 def run(rep):
     cr.rule_skel(rep, "C07.skel")
     cr.rule_steps(rep, want=("order", "guard", "fresh", "args"))
+    cr.rule_input(rep, "C07.isolation")
